@@ -59,4 +59,15 @@ CHECKS["C03"] = dict(
     note="Trusts: identity tokens computed by the harness; MustAccept is the conservative reading of docs/usage.md; which method is selected is C02's concern. Three defects found here were fixed (keyword forwarding, strictly-positional rule, zero-argument calls).",
     ref="5 C03")
 
+CHECKS["C16"] = dict(
+    technique="TLC model check of the function-graph state machine (Ovld.tla: UsedConsistent, RefusalJustified, ParentsUntouched) + TLC-generated behaviours replayed on real Ovld objects + trace judge Trace_Ovld tracking the Doc overlay from the observed history",
+    text="Ovld.tla models creation with mixins / linkback, add_mixins, register with push-down, unregister, first use (lock propagation, rebuild of linked children). TLC checks that every node in use dispatches over the current overlay of everything it derives from, found the missing deep lock and the missing rebuild in add_mixins (both fixed) and verified the repaired rule. Behaviours generated from the module are replayed on the real library; Trace_Ovld re-derives Eff(n) from the observed accept/refuse outcomes and compares every probe with a brand-new function holding Eff(n).",
+    note="Trusts: oracle function built by the harness from Eff(n), which the judge re-derives and compares (premise); probes only call nodes the history has already put to use (a probe is itself a use).",
+    ref="5 C16")
+CHECKS["C08"] = dict(
+    technique="recursion probes on the graphs and build orders of TLC-generated Ovld.tla behaviours, judged by Trace_Ovld (reenters_dispatcher)",
+    text="On every node of every replayed behaviour the harness registers a marker method, a recursive method on a node-specific class and (roots) an intermediate recursive method, so that R<a> -> Mid -> Leaf walks through recurse three levels deep; whenever a node is in use, entering it through the recursive method inherited from each ancestor must come back with that node's own marker. Graph shapes, linkback flags, use orders and interleaved modifications come from the TLA+ model.",
+    note="Trusts: marker methods reveal the function a recursion entered. Naming the function itself is only constrained for the function's own calls (statement), which no rewriting can change; it is not separately probed.",
+    ref="5 C08")
+
 PENDING_REASON = "check not built yet in this round (planned, see DESIGN section 10)"
